@@ -326,10 +326,25 @@ class Exec:
             if t.startswith('0x'): return bv(int(t, 16), 64)
             return bv(struct.unpack('<Q', struct.pack('<d', float(t)))[0], 64)
         if t.startswith('@'): return s.global_addr(t)
-        if t == 'bitcast' or t == 'getelementptr':
+        if t in ('bitcast', 'inttoptr', 'ptrtoint'):
             # constant expression: bitcast (T v to T2)
-            if t == 'bitcast':
-                p.expect('('); ty1 = parse_type(p); v = s.operand(p, ty1, env); p.expect('to'); parse_type(p); p.expect(')'); return v
+            p.expect('('); ty1 = parse_type(p); v = s.operand(p, ty1, env); p.expect('to'); parse_type(p); p.expect(')'); return v
+        if t == 'getelementptr':
+            # constant expression: getelementptr [inbounds] (T, T* @g, i64 0, [inrange] i32 k, ...)
+            p.accept('inbounds'); p.expect('('); bty = parse_type(p); p.expect(','); pty = parse_type(p); addr = s.operand(p, pty, env)
+            cur = bty; first = True
+            while p.accept(','):
+                p.accept('inrange'); ity = parse_type(p); idx = s.operand(p, ity, env)
+                if idx.size() < 64: idx = z3.SignExt(64 - idx.size(), idx)
+                if first: addr = addr + idx * bv(s.sizeof(cur)); first = False
+                else:
+                    c = s.deref(cur)
+                    if isinstance(c, StructTy):
+                        fi = z3.simplify(idx).as_long(); addr = addr + bv(c.layout(s.M)[0][fi]); cur = c.fields[fi]
+                    elif isinstance(c, ArrTy): addr = addr + idx * bv(s.sizeof(c.el)); cur = c.el
+                    else: raise ValueError('constant gep into %r' % c)
+            p.expect(')')
+            return z3.simplify(addr)
         raise ValueError('operand? %r' % t)
     def global_addr(s, name):
         if name in s.gobj: return bv(s.gobj[name])
